@@ -3,7 +3,7 @@
 From Coq Require Import ZArith List Bool String.
 Import ListNotations.
 From OL Require Import theories.Auth proofs.AuthProofs gen.Facts_Signers gen.Facts_Validate
-  gen.Facts_Wrapper gen.Facts_TxKinds.
+  gen.Facts_Wrapper gen.Facts_TxKinds theories.Caches gen.Facts_Caches.
 Local Open Scope Z_scope.
 
 (* admission (CheckTx): an accepted transaction carries, for each address its payload requires,
@@ -130,3 +130,10 @@ Example C04_nonvacuous :
   validate_basic m [11] [sign 13 m] = false /\
   (30 <=? Z.of_nat (List.length signers_table)) = true.
 Proof. vm_compute. repeat split; reflexivity. Qed.
+
+(* authentication of a request must not depend on earlier requests: the ABCI closures capture no
+   variable (the decoded transaction is a fresh object per request) and the application object has no
+   field outside the audited classes (e.g. no table of earlier validation outcomes) *)
+Theorem C04_fact_no_state_across_requests : closure_vars = [] /\ unknown_fields cache_fields = [].
+Proof. vm_compute. split; reflexivity. Qed.
+Print Assumptions C04_fact_no_state_across_requests.
